@@ -113,4 +113,79 @@ theorem toLong32_toString32 (n : Int) (hlo : minInt64 ≤ n) (hhi : n ≤ maxInt
       simp only [show ('x' = 'z') = False by decide, if_false, if_true]
       exact toLong_toStr n (by omega) hhi
 
+/-! ### `to_long` never leaves int64 (so modelling it on unbounded `Int` is exact) -/
+
+theorem findc_nonneg (c : Char) : 0 ≤ findc c ∧ findc c ≤ 35 := by
+  unfold findc
+  simp only
+  split
+  · omega
+  · split
+    · omega
+    · split <;> omega
+
+/-- with the accumulator in `[limit, 0]` every intermediate value (`result * 32`, `limit + digit`,
+    `result - digit`, `-result`) is within int64 and the accumulator stays in `[limit, 0]`;
+    the returned value is in `[0, maxInt64]` -/
+theorem toLongLoop_range (cs : List Char) : ∀ (r : Int), limit ≤ r → r ≤ 0 →
+    0 ≤ toLongLoop r cs ∧ toLongLoop r cs ≤ maxInt64 := by
+  induction cs with
+  | nil => intro r h1 h2; unfold toLongLoop limit maxInt64 at *; omega
+  | cons c cs ih =>
+    intro r h1 h2
+    have ⟨f0, f1⟩ := findc_nonneg c
+    rw [toLongLoop]
+    simp only
+    split
+    · unfold maxInt64; omega
+    · split
+      · unfold maxInt64; omega
+      · rename_i g1 g2
+        exact ih (r * 32 - findc c) (by unfold limit at *; omega) (by omega)
+
+theorem toLong_range (s : List Char) : 0 ≤ toLong s ∧ toLong s ≤ maxInt64 :=
+  toLongLoop_range s 0 (by decide) (by decide)
+
+theorem atoiSigned_range (neg : Bool) (body : List Char) (i : Int) (h : atoiSigned neg body = some i) :
+    minInt64 ≤ i ∧ i ≤ maxInt64 := by
+  unfold atoiSigned at h
+  split at h
+  · simp at h
+  · split at h
+    · simp at h
+    · rename_i n _
+      cases neg with
+      | true =>
+        simp only [if_true] at h
+        split at h
+        · simp only [Option.some.injEq] at h; unfold minInt64 maxInt64; omega
+        · simp at h
+      | false =>
+        simp only [Bool.false_eq_true, if_false] at h
+        split at h
+        · simp only [Option.some.injEq] at h; unfold minInt64 maxInt64; omega
+        · simp at h
+
+theorem atoi_range (s : List Char) (i : Int) (h : atoi s = some i) : minInt64 ≤ i ∧ i ≤ maxInt64 := by
+  unfold atoi at h
+  split at h <;> exact atoiSigned_range _ _ i h
+
+/-- every value `ToLong32` returns is an int64 -/
+theorem toLong32_range (s : List Char) : minInt64 ≤ toLong32 s ∧ toLong32 s ≤ maxInt64 := by
+  unfold toLong32
+  split
+  · unfold minInt64 maxInt64; omega
+  · rename_i c rest
+    have ⟨a, b⟩ := toLong_range rest
+    split
+    · split
+      · unfold minInt64 maxInt64; omega
+      · unfold minInt64 maxInt64 at *; omega
+    · split
+      · unfold minInt64 maxInt64 at *; omega
+      · split
+        · rename_i i hi
+          exact atoi_range _ i hi
+        · unfold minInt64 maxInt64; omega
+
 end Hexa32
